@@ -2012,4 +2012,708 @@ VP_RANDOM (struct_quat_d, 300000, 6000000, "double: " C05S_QUAT_RULE) { struct_q
 VP_LABELS (struct_quat_d, C05S_LABELS)
 VP_REQUIRE_LABELS (struct_quat_d, "lattice", "random", "exact_equality_demanded", "quat_identity_operand", "quat_conjugate_operand", "operands_equal")
 
+// =========================================================================================
+// 8. placement of operands and results in memory
+//
+// Everything above keeps its operands in free-standing locals, which compilers (and ASan) put on 16- or 32-byte
+// boundaries although alignof (M44f) is 4 and alignof (M44d) is 8.  A code change that assumes more than the
+// type's alignment (an aligned SSE / AVX load or store of a matrix row, a __builtin_assume_aligned, an 8-byte
+// access to two floats), that reads or writes past the end of an operand (a 16-byte access to a Vec3<float>), or
+// that dispatches on the address ("aligned path / unaligned path") is invisible there.  The sub-checks of this
+// section run EVERY product spelling of sections 1-6 twice, on the same operand values: once on ordinary locals
+// and once with both operands and the result object living at addresses that are valid for their type but not
+// 16- / 32- / 64-byte aligned, and demand the same bits in every object involved (operands included: the
+// compound and in-place spellings modify them, the others must not).  Placements (one kind per case):
+//   slab      each object placement-constructed in its own 192-byte slot of a 64-byte aligned buffer, at a byte
+//             offset drawn from {4,8,12,20,36,28,44,52,60,16,48,32} (4-byte aligned types) / {8,24,40,56,16,48,32}
+//             (8-byte aligned types); the rest of the buffer holds a guard pattern that must survive the call
+//   heap_tail each object at such an offset in its own 64-byte aligned heap block that ENDS with the object, so
+//             that the sanitizer binary sees any access past the end
+//   member    struct { int pad; X a; Y b; R r; } and struct { int pad[3]; R r; X a; Y b; } (64-byte aligned: the
+//             members sit at offset 4 / 12 (float) or 8 / 16 (double), adjacent to each other); pads are guards
+//   vptr      a polymorphic class { virtual ~; X a; Y b; R r; }: members from offset 8
+//   pair      std::pair<int, X>, std::pair<int, Y>, std::pair<int, R>: .second at offset 4 (float) / 8 (double)
+// A crash (SIGSEGV on a misaligned movaps) or a sanitizer report (UBSan misaligned load, ASan overflow) ends the
+// binary, which the driver reports as a violation; a value difference or a damaged guard byte is a failure with
+// key <family>-placement.  The pointers to the placed objects go through an empty asm so that the optimiser cannot
+// forward the operand values into the call and skip the memory accesses under test.
+// Operand values: the classes of sections 1-6 (lattice / sparse / graded / random); homogeneous coordinate kept
+// away from 0 as in section 4.  There is no tolerance: both runs execute the same library code in the same binary.
+#include <new>
+#include <utility>
+#include <cstdlib>
+#include <cstring>
+#include <cstdint>
+
+enum
+{
+    LP_SLAB = L_SINGLE_NZ + 1,
+    LP_HEAPTAIL,
+    LP_MEMBER_PAD1,
+    LP_MEMBER_PAD3,
+    LP_VPTR,
+    LP_PAIR,
+    LP_NOT16,     // some object of a call at an address that is not a multiple of 16
+    LP_ALL_NOT16, // every object of a call
+    LP_16NOT32,   // some object at an odd multiple of 16
+    LP_32NOT64,   // some object at an odd multiple of 32
+    LP_F_VEC,
+    LP_F_QUAT,
+    LP_F_MATMUL,
+    LP_F_VECMAT,
+    LP_F_OUTER,
+    LP_F_DET,
+    LP_COUNT
+};
+static_assert (LP_COUNT <= 64, "label ids are bits of a 64-bit mask");
+#define C05P_LABELS                                                                                                  \
+    C05_LABELS, "placed_slab_offset", "placed_heap_block_tail", "placed_member_after_int", "placed_member_after_3_ints", "placed_member_after_vptr", "placed_pair_second", "some_object_not_16_aligned", "all_objects_not_16_aligned", \
+        "some_object_16_not_32_aligned", "some_object_32_not_64_aligned", "family_vec_dot_cross", "family_quat", "family_matrix_x_matrix", "family_vector_x_matrix", "family_outer_transpose_trace", "family_det_minors"
+
+enum
+{
+    PK_SLAB,
+    PK_HEAPTAIL,
+    PK_MEMBER1,
+    PK_MEMBER3,
+    PK_VPTR,
+    PK_PAIR,
+    PK_COUNT
+};
+static const char* const PK_NAME[PK_COUNT] = { "slot of a 64-byte aligned buffer", "tail of a 64-byte aligned heap block", "member of struct {int pad; X a; Y b; R r;}", "member of struct {int pad[3]; R r; X a; Y b;}", "member of a polymorphic class {vptr; X a; Y b; R r;}", "second of a std::pair<int, .>" };
+
+template <class X> struct ElemOf
+{
+    typedef typename X::BaseType type;
+};
+template <> struct ElemOf<float>
+{
+    typedef float type;
+};
+template <> struct ElemOf<double>
+{
+    typedef double type;
+};
+
+static const unsigned char P_OFF4[] = { 4, 8, 12, 20, 36, 28, 44, 52, 60, 16, 48, 32 };
+static const unsigned char P_OFF8[] = { 8, 24, 40, 56, 16, 48, 32 };
+template <class X> static inline size_t draw_off (vp::Src& s)
+{
+    if (alignof (X) >= 8) return s.pick (P_OFF8);
+    return s.pick (P_OFF4);
+}
+// the optimiser must not know where the pointer points or what the memory holds
+template <class X> static inline X* opaque (X* p)
+{
+    asm volatile ("" : "+r"(p) : : "memory");
+    return p;
+}
+
+struct Slab
+{
+    enum
+    {
+        SLOT  = 192,
+        NSLOT = 3,
+        FILL  = 0xC5
+    };
+    alignas (64) unsigned char b[SLOT * NSLOT];
+    size_t lo[NSLOT], hi[NSLOT];
+    void   reset ()
+    {
+        memset (b, FILL, sizeof (b));
+        for (int i = 0; i < NSLOT; ++i)
+            lo[i] = hi[i] = 0;
+    }
+    template <class X> X* put (int slot, size_t off, const X& init)
+    {
+        static_assert (sizeof (X) + 60 <= SLOT, "slot too small");
+        lo[slot] = off;
+        hi[slot] = off + sizeof (X);
+        return new (b + slot * SLOT + off) X (init);
+    }
+};
+struct HeapTail
+{
+    unsigned char* p;
+    explicit HeapTail (size_t n) : p (nullptr)
+    {
+        void* q = nullptr;
+        if (posix_memalign (&q, 64, n) != 0) q = nullptr;
+        p = (unsigned char*) q;
+    }
+    ~HeapTail () { free (p); }
+    HeapTail (const HeapTail&)            = delete;
+    HeapTail& operator= (const HeapTail&) = delete;
+};
+template <class X, class Y, class R> struct RecPad1
+{
+    int pad;
+    X   a;
+    Y   b;
+    R   r;
+};
+template <class X, class Y, class R> struct RecPad3
+{
+    int pad[3];
+    R   r;
+    X   a;
+    Y   b;
+};
+template <class X, class Y, class R> struct RecVptr
+{
+    virtual ~RecVptr () {}
+    X a;
+    Y b;
+    R r;
+};
+
+struct PObj
+{
+    const void* loc;  // after the call on locals
+    const void* pl;   // after the call on placed objects
+    size_t      size; // bytes
+    int         esz;  // element size (4 float, 8 double)
+    size_t      off;  // byte offset from a 64-byte boundary
+};
+struct PCtx
+{
+    vp::Ctx& c;
+    int      kind;
+};
+static const char* const P_ROLE[3] = { "left operand", "right operand", "result object" };
+
+[[gnu::noinline, gnu::cold, noreturn]] static void placed_fail (vp::Ctx& c, const char* key, const char* what, int kind, const PObj* o, int which, size_t byte, bool guard)
+{
+    std::ostringstream m;
+    m << std::setprecision (17) << what << " with (left, right, result) each a " << PK_NAME[kind] << " at byte offsets (" << o[0].off << ", " << o[1].off << ", " << o[2].off << ") from a 64-byte boundary: ";
+    if (guard)
+        m << "a byte outside the three objects was overwritten (" << (which < 0 ? "guard field" : P_ROLE[which]) << " slot, byte " << byte << ")";
+    else
+    {
+        size_t e = byte / (size_t) o[which].esz;
+        double vl, vp;
+        if (o[which].esz == 4)
+        {
+            float x, y;
+            memcpy (&x, (const char*) o[which].loc + 4 * e, 4);
+            memcpy (&y, (const char*) o[which].pl + 4 * e, 4);
+            vl = x;
+            vp = y;
+        }
+        else
+        {
+            memcpy (&vl, (const char*) o[which].loc + 8 * e, 8);
+            memcpy (&vp, (const char*) o[which].pl + 8 * e, 8);
+        }
+        m << P_ROLE[which] << " element " << e << " = " << vp << " (" << hexf (vp) << ") but the same call on ordinary locals gives " << vl << " (" << hexf (vl) << ")";
+    }
+    std::string k (key);
+    if (guard) k += "-overrun";
+    c.do_fail (k, m.str ());
+}
+// compare the three objects of a call bit for bit, check the guard bytes, label the address classes
+[[gnu::noinline]] static void placed_verify (vp::Ctx& c, const char* key, const char* what, int kind, const PObj* o, const Slab* slab)
+{
+    int n16 = 0;
+    for (int i = 0; i < 3; ++i)
+    {
+        if (o[i].off % 16)
+            ++n16;
+        else if (o[i].off % 32)
+            c.label (LP_16NOT32);
+        else if (o[i].off % 64)
+            c.label (LP_32NOT64);
+    }
+    if (n16) c.label (LP_NOT16);
+    if (n16 == 3) c.label (LP_ALL_NOT16);
+    c.nt (n16 > 0);
+    for (int i = 0; i < 3; ++i)
+    {
+        if (memcmp (o[i].loc, o[i].pl, o[i].size) == 0) continue;
+        const unsigned char *p = (const unsigned char*) o[i].loc, *q = (const unsigned char*) o[i].pl;
+        size_t               k = 0;
+        while (p[k] == q[k])
+            ++k;
+        placed_fail (c, key, what, kind, o, i, k, false);
+    }
+    if (slab)
+        for (int i = 0; i < Slab::NSLOT; ++i)
+        {
+            const unsigned char* b = slab->b + i * Slab::SLOT;
+            for (size_t k = 0; k < Slab::SLOT; ++k)
+                if ((k < slab->lo[i] || k >= slab->hi[i]) && b[k] != Slab::FILL) placed_fail (c, key, what, kind, o, i, k, true);
+        }
+}
+#define P_OBJS(X, Y, R, la, lb, lr, pa, pb, pr, base)                                                                \
+    PObj o_[3] = { { &la, pa, sizeof (X), (int) sizeof (typename ElemOf<X>::type), (size_t) ((const char*) (pa) - (const char*) (base)) },                \
+                   { &lb, pb, sizeof (Y), (int) sizeof (typename ElemOf<Y>::type), (size_t) ((const char*) (pb) - (const char*) (base)) },                \
+                   { &lr, pr, sizeof (R), (int) sizeof (typename ElemOf<R>::type), (size_t) ((const char*) (pr) - (const char*) (base)) } }
+
+// run op on copies of (a0, b0, r0) in locals and in the placement of this case; compare
+template <class Op, class X, class Y, class R> static void run_placed (PCtx& P, const Op& op, const X& a0, const Y& b0, const R& r0)
+{
+    vp::Ctx& c = P.c;
+    X        la (a0);
+    Y        lb (b0);
+    R        lr (r0);
+    op.run (la, lb, lr);
+    switch (P.kind)
+    {
+        case PK_SLAB:
+        {
+            Slab sl;
+            sl.reset ();
+            size_t oa = draw_off<X> (c.s);
+            size_t ob = draw_off<Y> (c.s);
+            size_t oc = draw_off<R> (c.s);
+            X*     pa = opaque (sl.put (0, oa, a0));
+            Y*     pb = opaque (sl.put (1, ob, b0));
+            R*     pr = opaque (sl.put (2, oc, r0));
+            op.run (*pa, *pb, *pr);
+            PObj o_[3] = { { &la, pa, sizeof (X), (int) sizeof (typename ElemOf<X>::type), oa }, { &lb, pb, sizeof (Y), (int) sizeof (typename ElemOf<Y>::type), ob }, { &lr, pr, sizeof (R), (int) sizeof (typename ElemOf<R>::type), oc } };
+            placed_verify (c, op.key, op.what, P.kind, o_, &sl);
+            break;
+        }
+        case PK_HEAPTAIL:
+        {
+            size_t   oa = draw_off<X> (c.s);
+            size_t   ob = draw_off<Y> (c.s);
+            size_t   oc = draw_off<R> (c.s);
+            HeapTail ha (oa + sizeof (X)), hb (ob + sizeof (Y)), hr (oc + sizeof (R));
+            if (!ha.p || !hb.p || !hr.p) c.discard ("out of memory");
+            X* pa = opaque (new (ha.p + oa) X (a0));
+            Y* pb = opaque (new (hb.p + ob) Y (b0));
+            R* pr = opaque (new (hr.p + oc) R (r0));
+            op.run (*pa, *pb, *pr);
+            PObj o_[3] = { { &la, pa, sizeof (X), (int) sizeof (typename ElemOf<X>::type), oa }, { &lb, pb, sizeof (Y), (int) sizeof (typename ElemOf<Y>::type), ob }, { &lr, pr, sizeof (R), (int) sizeof (typename ElemOf<R>::type), oc } };
+            placed_verify (c, op.key, op.what, P.kind, o_, nullptr);
+            break;
+        }
+        case PK_MEMBER1:
+        {
+            alignas (64) RecPad1<X, Y, R> rec;
+            rec.pad = 0x5A5A5A5A;
+            rec.a   = a0;
+            rec.b   = b0;
+            rec.r   = r0;
+            RecPad1<X, Y, R>* q = opaque (&rec);
+            op.run (q->a, q->b, q->r);
+            P_OBJS (X, Y, R, la, lb, lr, &q->a, &q->b, &q->r, q);
+            placed_verify (c, op.key, op.what, P.kind, o_, nullptr);
+            if (q->pad != 0x5A5A5A5A) placed_fail (c, op.key, op.what, P.kind, o_, -1, 0, true);
+            break;
+        }
+        case PK_MEMBER3:
+        {
+            alignas (64) RecPad3<X, Y, R> rec;
+            rec.pad[0] = rec.pad[1] = rec.pad[2] = 0x5A5A5A5A;
+            rec.a                                = a0;
+            rec.b                                = b0;
+            rec.r                                = r0;
+            RecPad3<X, Y, R>* q = opaque (&rec);
+            op.run (q->a, q->b, q->r);
+            P_OBJS (X, Y, R, la, lb, lr, &q->a, &q->b, &q->r, q);
+            placed_verify (c, op.key, op.what, P.kind, o_, nullptr);
+            if (q->pad[0] != 0x5A5A5A5A || q->pad[1] != 0x5A5A5A5A || q->pad[2] != 0x5A5A5A5A) placed_fail (c, op.key, op.what, P.kind, o_, -1, 0, true);
+            break;
+        }
+        case PK_VPTR:
+        {
+            alignas (64) RecVptr<X, Y, R> rec;
+            rec.a = a0;
+            rec.b = b0;
+            rec.r = r0;
+            RecVptr<X, Y, R>* q = opaque (&rec);
+            op.run (q->a, q->b, q->r);
+            P_OBJS (X, Y, R, la, lb, lr, &q->a, &q->b, &q->r, q);
+            placed_verify (c, op.key, op.what, P.kind, o_, nullptr);
+            break;
+        }
+        default:
+        {
+            alignas (64) std::pair<int, X> xa (0x5A5A5A5A, a0);
+            alignas (64) std::pair<int, Y> xb (0x5A5A5A5A, b0);
+            alignas (64) std::pair<int, R> xr (0x5A5A5A5A, r0);
+            std::pair<int, X>*             qa = opaque (&xa);
+            std::pair<int, Y>*             qb = opaque (&xb);
+            std::pair<int, R>*             qr = opaque (&xr);
+            op.run (qa->second, qb->second, qr->second);
+            PObj o_[3] = { { &la, &qa->second, sizeof (X), (int) sizeof (typename ElemOf<X>::type), (size_t) ((const char*) &qa->second - (const char*) qa) },
+                           { &lb, &qb->second, sizeof (Y), (int) sizeof (typename ElemOf<Y>::type), (size_t) ((const char*) &qb->second - (const char*) qb) },
+                           { &lr, &qr->second, sizeof (R), (int) sizeof (typename ElemOf<R>::type), (size_t) ((const char*) &qr->second - (const char*) qr) } };
+            placed_verify (c, op.key, op.what, P.kind, o_, nullptr);
+            if (qa->first != 0x5A5A5A5A || qb->first != 0x5A5A5A5A || qr->first != 0x5A5A5A5A) placed_fail (c, op.key, op.what, P.kind, o_, -1, 0, true);
+            break;
+        }
+    }
+}
+
+// the spellings.  run (a, b, r): a = left operand, b = right operand, r = result object (a scalar where the result is one)
+struct OpB
+{
+    const char* key;
+    const char* what;
+    OpB (const char* k, const char* w) : key (k), what (w) {}
+};
+#define P_OP(NAME, BODY)                                                                                             \
+    struct NAME : OpB                                                                                                \
+    {                                                                                                                \
+        NAME (const char* k, const char* w) : OpB (k, w) {}                                                          \
+        template <class X, class Y, class R> void run (X& a, Y& b, R& r) const                                       \
+        {                                                                                                            \
+            (void) a;                                                                                                \
+            (void) b;                                                                                                \
+            (void) r;                                                                                                \
+            BODY;                                                                                                    \
+        }                                                                                                            \
+    };
+P_OP (OpDot, r = a.dot (b))
+P_OP (OpHat, r = a ^ b)
+P_OP (OpCross, r = a.cross (b))
+P_OP (OpMod, r = a % b)
+P_OP (OpModEq, a %= b)
+P_OP (OpModEqSelf, a %= a)
+P_OP (OpMul, r = a * b) // quaternion product, matrix x matrix, vector x matrix
+P_OP (OpMulEq, a *= b)
+P_OP (OpMulSelf, a *= a)
+P_OP (OpMultiply2, r = X::multiply (a, b))
+P_OP (OpMultiply3, X::multiply (a, b, r))
+P_OP (OpMVM, b.multVecMatrix (a, r))
+P_OP (OpMVMSelf, b.multVecMatrix (a, a))
+P_OP (OpMDM, b.multDirMatrix (a, r))
+P_OP (OpMDMSelf, b.multDirMatrix (a, a))
+P_OP (OpOuter, r = outerProduct (a, b))
+P_OP (OpTransposed, r = a.transposed ())
+P_OP (OpTranspose, a.transpose ())
+P_OP (OpTrace, r = a.trace ())
+P_OP (OpDet, r = a.determinant ())
+struct OpMinorOf : OpB
+{
+    int i, j;
+    OpMinorOf (const char* k, const char* w, int i_, int j_) : OpB (k, w), i (i_), j (j_) {}
+    template <class X, class Y, class R> void run (X& a, Y&, R& r) const { r = a.minorOf (i, j); }
+};
+struct OpFastMinor33 : OpB
+{
+    int r0, r1, c0, c1;
+    OpFastMinor33 (const char* k, const char* w, int a_, int b_, int c_, int d_) : OpB (k, w), r0 (a_), r1 (b_), c0 (c_), c1 (d_) {}
+    template <class X, class Y, class R> void run (X& a, Y&, R& r) const { r = a.fastMinor (r0, r1, c0, c1); }
+};
+struct OpFastMinor44 : OpB
+{
+    int r0, r1, r2, c0, c1, c2;
+    OpFastMinor44 (const char* k, const char* w, const int* rr, const int* cc) : OpB (k, w), r0 (rr[0]), r1 (rr[1]), r2 (rr[2]), c0 (cc[0]), c1 (cc[1]), c2 (cc[2]) {}
+    template <class X, class Y, class R> void run (X& a, Y&, R& r) const { r = a.fastMinor (r0, r1, r2, c0, c1, c2); }
+};
+
+template <class T> static void place_vec (PCtx& P, int mode)
+{
+    vp::Ctx& c   = P.c;
+    vp::Src& s   = c.s;
+    int      dim = 2 + (int) s.below (3);
+    T        a[4], b[4];
+    gen_arr (s, mode, a, 4);
+    gen_arr (s, mode, b, 4);
+    const T junk = (T) 9;
+    c.label (L_DIM2 + dim - 2);
+    VP_NOTE (c, tname<T> () << " Vec" << dim << " a=" << vstr (a, dim) << " b=" << vstr (b, dim));
+    if (dim == 2)
+    {
+        Vec2<T> A (a[0], a[1]), B (b[0], b[1]);
+        run_placed (P, OpDot ("vec-dot-placement", "V2 a.dot(b)"), A, B, junk);
+        run_placed (P, OpHat ("vec-dot-placement", "V2 a^b"), A, B, junk);
+        run_placed (P, OpCross ("vec-cross-placement", "V2 a.cross(b)"), A, B, junk);
+        run_placed (P, OpMod ("vec-cross-placement", "V2 a%b"), A, B, junk);
+    }
+    else if (dim == 3)
+    {
+        Vec3<T> A (a[0], a[1], a[2]), B (b[0], b[1], b[2]), J (junk, junk, junk);
+        run_placed (P, OpDot ("vec-dot-placement", "V3 a.dot(b)"), A, B, junk);
+        run_placed (P, OpHat ("vec-dot-placement", "V3 a^b"), A, B, junk);
+        run_placed (P, OpCross ("vec-cross-placement", "V3 r=a.cross(b)"), A, B, J);
+        run_placed (P, OpMod ("vec-cross-placement", "V3 r=a%b"), A, B, J);
+        run_placed (P, OpModEq ("vec-cross-placement", "V3 a%=b"), A, B, J);
+        run_placed (P, OpModEqSelf ("vec-cross-placement", "V3 a%=a"), A, B, J);
+    }
+    else
+    {
+        Vec4<T> A (a[0], a[1], a[2], a[3]), B (b[0], b[1], b[2], b[3]);
+        run_placed (P, OpDot ("vec-dot-placement", "V4 a.dot(b)"), A, B, junk);
+        run_placed (P, OpHat ("vec-dot-placement", "V4 a^b"), A, B, junk);
+    }
+}
+template <class T> static void place_quat (PCtx& P, int mode)
+{
+    vp::Ctx& c = P.c;
+    T        p[4], q[4];
+    gen_arr (c.s, mode, p, 4);
+    gen_arr (c.s, mode, q, 4);
+    Quat<T> A (p[0], p[1], p[2], p[3]), B (q[0], q[1], q[2], q[3]), J ((T) 9, (T) 9, (T) 9, (T) 9);
+    VP_NOTE (c, tname<T> () << " Quat q1=(r,x,y,z)=" << vstr (p, 4) << " q2=" << vstr (q, 4));
+    run_placed (P, OpMul ("quat-product-placement", "Quat r=q1*q2"), A, B, J);
+    run_placed (P, OpMulEq ("quat-product-placement", "Quat q1*=q2"), A, B, J);
+    run_placed (P, OpMulSelf ("quat-product-placement", "Quat q1*=q1"), A, B, J);
+    run_placed (P, OpHat ("quat-product-placement", "Quat q1^q2"), A, B, (T) 9);
+}
+template <class T, int N> static void place_matmul_dim (PCtx& P, int mode)
+{
+    typedef typename TY<T, N>::M MT;
+    vp::Ctx&                     c = P.c;
+    MT                           A, B, J ((T) 7);
+    gen_mat<T, N> (c, mode, A);
+    gen_mat<T, N> (c, mode, B);
+    VP_NOTE (c, tname<T> () << " N=" << N << " A=" << mstr (A, N) << " B=" << mstr (B, N));
+    const char* key = N == 2 ? "mat22-multiply-placement" : N == 3 ? "mat33-multiply-placement" : "mat44-multiply-placement";
+    run_placed (P, OpMul (key, "Matrix r=A*B"), A, B, J);
+    run_placed (P, OpMulEq (key, "Matrix A*=B"), A, B, J);
+    run_placed (P, OpMulSelf (key, "Matrix A*=A"), A, B, J);
+}
+template <class T> static void place_matmul (PCtx& P, int mode)
+{
+    vp::Ctx& c   = P.c;
+    int      dim = 2 + (int) c.s.below (4);
+    if (dim > 4) dim = 4;
+    c.label (L_DIM2 + dim - 2);
+    if (dim == 2)
+        place_matmul_dim<T, 2> (P, mode);
+    else if (dim == 3)
+        place_matmul_dim<T, 3> (P, mode);
+    else
+    {
+        place_matmul_dim<T, 4> (P, mode);
+        Matrix44<T> A, B, J ((T) 7);
+        gen_mat<T, 4> (c, mode, A);
+        gen_mat<T, 4> (c, mode, B);
+        VP_NOTE (c, "multiply: A=" << mstr (A, 4) << " B=" << mstr (B, 4));
+        run_placed (P, OpMultiply2 ("mat44-multiply-placement", "Matrix44 r=multiply(A,B)"), A, B, J);
+        run_placed (P, OpMultiply3 ("mat44-multiply-placement", "Matrix44 multiply(A,B,r)"), A, B, J);
+    }
+}
+template <class S, class T> static void place_vecmat (PCtx& P, int mode)
+{
+    vp::Ctx& c     = P.c;
+    vp::Src& s     = c.s;
+    int      combo = (int) s.below (6); // 0 V2xM22, 1 V2xM33, 2 V3xM33, 3 and 5 V3xM44, 4 V4xM44
+    if (combo == 5) combo = 3;
+    bool    lat = mode == M_LATTICE;
+    S       v[4];
+    const S j = (S) 9;
+    switch (combo)
+    {
+        case 0:
+        {
+            c.label (L_DIM2);
+            Matrix22<T> m;
+            gen_mat<T, 2> (c, mode, m);
+            gen_arr (s, mode, v, 2);
+            VP_NOTE (c, "V2<" << tname<S> () << "> x M22<" << tname<T> () << "> v=" << vstr (v, 2) << " m=" << mstr (m, 2));
+            Vec2<S> V (v[0], v[1]), J (j, j);
+            run_placed (P, OpMul ("v2m22-placement", "r=V2*M22"), V, m, J);
+            run_placed (P, OpMulEq ("v2m22-placement", "V2*=M22"), V, m, J);
+            run_placed (P, OpMDM ("v2m22-placement", "M22.multDirMatrix(v,r)"), V, m, J);
+            run_placed (P, OpMDMSelf ("v2m22-placement", "M22.multDirMatrix(v,v)"), V, m, J);
+            break;
+        }
+        case 1:
+        {
+            c.label (L_DIM3);
+            Matrix33<T> m;
+            gen_mat<T, 3> (c, mode, m);
+            gen_arr (s, mode, v, 2);
+            fix_w<S, T, 2> (c, v, m, lat);
+            VP_NOTE (c, "V2<" << tname<S> () << "> x M33<" << tname<T> () << "> v=" << vstr (v, 2) << " m=" << mstr (m, 3));
+            Vec2<S> V (v[0], v[1]), J (j, j);
+            run_placed (P, OpMul ("v2m33-placement", "r=V2*M33"), V, m, J);
+            run_placed (P, OpMulEq ("v2m33-placement", "V2*=M33"), V, m, J);
+            run_placed (P, OpMVM ("v2m33-placement", "M33.multVecMatrix(v,r)"), V, m, J);
+            run_placed (P, OpMVMSelf ("v2m33-placement", "M33.multVecMatrix(v,v)"), V, m, J);
+            run_placed (P, OpMDM ("v2m33-placement", "M33.multDirMatrix(v,r)"), V, m, J);
+            run_placed (P, OpMDMSelf ("v2m33-placement", "M33.multDirMatrix(v,v)"), V, m, J);
+            break;
+        }
+        case 2:
+        {
+            c.label (L_DIM3);
+            Matrix33<T> m;
+            gen_mat<T, 3> (c, mode, m);
+            gen_arr (s, mode, v, 3);
+            VP_NOTE (c, "V3<" << tname<S> () << "> x M33<" << tname<T> () << "> v=" << vstr (v, 3) << " m=" << mstr (m, 3));
+            Vec3<S> V (v[0], v[1], v[2]), J (j, j, j);
+            run_placed (P, OpMul ("v3m33-placement", "r=V3*M33"), V, m, J);
+            run_placed (P, OpMulEq ("v3m33-placement", "V3*=M33"), V, m, J);
+            break;
+        }
+        case 3:
+        {
+            c.label (L_DIM4);
+            Matrix44<T> m;
+            gen_mat<T, 4> (c, mode, m);
+            gen_arr (s, mode, v, 3);
+            fix_w<S, T, 3> (c, v, m, lat);
+            VP_NOTE (c, "V3<" << tname<S> () << "> x M44<" << tname<T> () << "> v=" << vstr (v, 3) << " m=" << mstr (m, 4));
+            Vec3<S> V (v[0], v[1], v[2]), J (j, j, j);
+            run_placed (P, OpMul ("v3m44-placement", "r=V3*M44"), V, m, J);
+            run_placed (P, OpMulEq ("v3m44-placement", "V3*=M44"), V, m, J);
+            run_placed (P, OpMVM ("v3m44-placement", "M44.multVecMatrix(v,r)"), V, m, J);
+            run_placed (P, OpMVMSelf ("v3m44-placement", "M44.multVecMatrix(v,v)"), V, m, J);
+            run_placed (P, OpMDM ("v3m44-placement", "M44.multDirMatrix(v,r)"), V, m, J);
+            run_placed (P, OpMDMSelf ("v3m44-placement", "M44.multDirMatrix(v,v)"), V, m, J);
+            break;
+        }
+        default:
+        {
+            c.label (L_DIM4);
+            Matrix44<T> m;
+            gen_mat<T, 4> (c, mode, m);
+            gen_arr (s, mode, v, 4);
+            VP_NOTE (c, "V4<" << tname<S> () << "> x M44<" << tname<T> () << "> v=" << vstr (v, 4) << " m=" << mstr (m, 4));
+            Vec4<S> V (v[0], v[1], v[2], v[3]), J (j, j, j, j);
+            run_placed (P, OpMul ("v4m44-placement", "r=V4*M44"), V, m, J);
+            run_placed (P, OpMulEq ("v4m44-placement", "V4*=M44"), V, m, J);
+            break;
+        }
+    }
+}
+template <class T, int N> static void place_ttt_dim (PCtx& P, int mode)
+{
+    typedef typename TY<T, N>::M MT;
+    vp::Ctx&                     c = P.c;
+    MT                           A, J ((T) 7);
+    gen_mat<T, N> (c, mode, A);
+    VP_NOTE (c, tname<T> () << " N=" << N << " A=" << mstr (A, N));
+    const T     junk = (T) 9;
+    const char* tkey = N == 2 ? "mat22-transpose-placement" : N == 3 ? "mat33-transpose-placement" : "mat44-transpose-placement";
+    run_placed (P, OpTransposed (tkey, "Matrix r=A.transposed()"), A, junk, J);
+    run_placed (P, OpTranspose (tkey, "Matrix A.transpose()"), A, junk, J);
+    run_placed (P, OpTrace (N == 2 ? "mat22-trace-placement" : N == 3 ? "mat33-trace-placement" : "mat44-trace-placement", "Matrix A.trace()"), A, junk, junk);
+}
+template <class T> static void place_outer (PCtx& P, int mode)
+{
+    vp::Ctx& c   = P.c;
+    vp::Src& s   = c.s;
+    int      dim = 2 + (int) s.below (3);
+    c.label (L_DIM2 + dim - 2);
+    if (dim == 2)
+        place_ttt_dim<T, 2> (P, mode);
+    else if (dim == 3)
+        place_ttt_dim<T, 3> (P, mode);
+    else
+        place_ttt_dim<T, 4> (P, mode);
+    T a[4], b[4];
+    gen_arr (s, mode, a, 4);
+    gen_arr (s, mode, b, 4);
+    VP_NOTE (c, "outerProduct a=" << vstr (a, 4) << " b=" << vstr (b, 4));
+    if (dim <= 3)
+    {
+        Vec3<T>     A (a[0], a[1], a[2]), B (b[0], b[1], b[2]);
+        Matrix33<T> J ((T) 7);
+        run_placed (P, OpOuter ("outer33-placement", "outerProduct(V3,V3)"), A, B, J);
+    }
+    else
+    {
+        Vec4<T>     A (a[0], a[1], a[2], a[3]), B (b[0], b[1], b[2], b[3]);
+        Matrix44<T> J ((T) 7);
+        run_placed (P, OpOuter ("outer44-placement", "outerProduct(V4,V4)"), A, B, J);
+    }
+}
+template <class T> static void place_det (PCtx& P, int mode)
+{
+    vp::Ctx& c   = P.c;
+    vp::Src& s   = c.s;
+    int      dim = 2 + (int) s.below (4);
+    if (dim > 4) dim = 4;
+    c.label (L_DIM2 + dim - 2);
+    const T junk = (T) 9;
+    if (dim == 2)
+    {
+        Matrix22<T> A;
+        gen_mat<T, 2> (c, mode, A, DET_GE (T));
+        VP_NOTE (c, tname<T> () << " N=2 A=" << mstr (A, 2));
+        run_placed (P, OpDet ("det22-placement", "Matrix22.determinant()"), A, junk, junk);
+    }
+    else if (dim == 3)
+    {
+        Matrix33<T> A;
+        gen_mat<T, 3> (c, mode, A, DET_GE (T));
+        VP_NOTE (c, tname<T> () << " N=3 A=" << mstr (A, 3));
+        run_placed (P, OpDet ("det33-placement", "Matrix33.determinant()"), A, junk, junk);
+        int i  = (int) s.below (3);
+        int j  = (int) s.below (3);
+        run_placed (P, OpMinorOf ("minorOf33-placement", "Matrix33.minorOf(i,j)", i, j), A, junk, junk);
+        int r0 = (int) s.below (3);
+        int r1 = (int) s.below (3);
+        int c0 = (int) s.below (3);
+        int c1 = (int) s.below (3);
+        run_placed (P, OpFastMinor33 ("fastMinor33-placement", "Matrix33.fastMinor(r0,r1,c0,c1)", r0, r1, c0, c1), A, junk, junk);
+    }
+    else
+    {
+        Matrix44<T> A;
+        gen_mat<T, 4> (c, mode, A, DET_GE (T));
+        VP_NOTE (c, tname<T> () << " N=4 A=" << mstr (A, 4));
+        det_labels44<T> (c, A);
+        run_placed (P, OpDet ("det44-placement", "Matrix44.determinant()"), A, junk, junk);
+        int i = (int) s.below (4);
+        int j = (int) s.below (4);
+        run_placed (P, OpMinorOf ("minorOf44-placement", "Matrix44.minorOf(i,j)", i, j), A, junk, junk);
+        int rr[3], cc[3];
+        for (int k = 0; k < 3; ++k)
+        {
+            rr[k] = (int) s.below (4);
+            cc[k] = (int) s.below (4);
+        }
+        run_placed (P, OpFastMinor44 ("fastMinor44-placement", "Matrix44.fastMinor(r0,r1,r2,c0,c1,c2)", rr, cc), A, junk, junk);
+    }
+}
+
+enum
+{
+    PF_VEC,
+    PF_QUAT,
+    PF_MATMUL,
+    PF_VECMAT,
+    PF_OUTER,
+    PF_DET
+};
+template <class S, class T> static void place_case (vp::Ctx& c, bool vecmat_only)
+{
+    vp::Src&         s      = c.s;
+    int              mode   = pick_mode (s);
+    int              kind   = (int) s.below (PK_COUNT);
+    static const int tab[8] = { PF_VECMAT, PF_VECMAT, PF_VECMAT, PF_MATMUL, PF_VEC, PF_QUAT, PF_OUTER, PF_DET };
+    int              fam    = tab[s.below (8)];
+    if (vecmat_only) fam = PF_VECMAT;
+    mode_label (c, mode);
+    c.label (LP_SLAB + kind);
+    c.label (LP_F_VEC + fam);
+    PCtx P = { c, kind };
+    VP_NOTE (c, "placement: " << PK_NAME[kind] << "; " << mode_name (mode));
+    switch (fam)
+    {
+        case PF_VEC: place_vec<T> (P, mode); break;
+        case PF_QUAT: place_quat<T> (P, mode); break;
+        case PF_MATMUL: place_matmul<T> (P, mode); break;
+        case PF_VECMAT: place_vecmat<S, T> (P, mode); break;
+        case PF_OUTER: place_outer<T> (P, mode); break;
+        default: place_det<T> (P, mode); break;
+    }
+}
+#define C05P_RULE "every spelling run on ordinary locals and on operands + result object placed at addresses valid for the type but not 16/32/64-byte aligned: own slot of a 64-byte aligned buffer at offset {4,8,12,20,36,28,44,52,60,16,48,32} (float types) / {8,24,40,56,16,48,32} (double types) with guard bytes, tail of a heap block, members of struct{int pad; X a; Y b; R r;} / struct{int pad[3]; R r; X a; Y b;} / a polymorphic class / std::pair<int,.>; all three objects bit-identical to the run on locals, guard bytes intact (a crash or sanitizer report ends the binary = violation); operand values as in sections 1-6; non-trivial = some object of a call not 16-byte aligned"
+#define C05P_REQ "lattice", "sparse", "graded", "random", "placed_slab_offset", "placed_heap_block_tail", "placed_member_after_int", "placed_member_after_3_ints", "placed_member_after_vptr", "placed_pair_second", "some_object_not_16_aligned", "all_objects_not_16_aligned", "some_object_16_not_32_aligned", "some_object_32_not_64_aligned", "dim2", "dim3", "dim4"
+#define C05P_REQ_ALL C05P_REQ, "family_vec_dot_cross", "family_quat", "family_matrix_x_matrix", "family_vector_x_matrix", "family_outer_transpose_trace", "family_det_minors"
+VP_RANDOM (place_f, 400000, 8000000, "float: V2/3/4 dot,^,cross,%,%=; Quat *,*=,^; M22/33/44 *,*=,A*=A, M44::multiply 2-/3-argument; VxM *,*=,multVecMatrix,multDirMatrix (5 combinations, src==dst); outerProduct, transposed, transpose, trace; determinant, minorOf, fastMinor: " C05P_RULE) { place_case<float, float> (c, false); }
+VP_LABELS (place_f, C05P_LABELS)
+VP_REQUIRE_LABELS (place_f, C05P_REQ_ALL)
+VP_RANDOM (place_d, 400000, 8000000, "double: V2/3/4 dot,^,cross,%,%=; Quat *,*=,^; M22/33/44 *,*=,A*=A, M44::multiply 2-/3-argument; VxM *,*=,multVecMatrix,multDirMatrix (5 combinations, src==dst); outerProduct, transposed, transpose, trace; determinant, minorOf, fastMinor: " C05P_RULE) { place_case<double, double> (c, false); }
+VP_LABELS (place_d, C05P_LABELS)
+VP_REQUIRE_LABELS (place_d, C05P_REQ_ALL)
+VP_RANDOM (place_fd, 150000, 3000000, "float vector x double matrix, *,*=,multVecMatrix,multDirMatrix (5 combinations, src==dst): " C05P_RULE) { place_case<float, double> (c, true); }
+VP_LABELS (place_fd, C05P_LABELS)
+VP_REQUIRE_LABELS (place_fd, C05P_REQ, "family_vector_x_matrix")
+VP_RANDOM (place_df, 150000, 3000000, "double vector x float matrix, *,*=,multVecMatrix,multDirMatrix (5 combinations, src==dst): " C05P_RULE) { place_case<double, float> (c, true); }
+VP_LABELS (place_df, C05P_LABELS)
+VP_REQUIRE_LABELS (place_df, C05P_REQ, "family_vector_x_matrix")
+
+
 VP_MAIN ("C05")
